@@ -573,6 +573,14 @@ func (z *BigInt) GCD(x, y, a, b *BigInt) *BigInt {
 	// detect when y is aliased to b. See "avoid aliasing b" in lehmerGCD.
 	yi := y.innerOrNilOrAlias(&tmp5, b, bi)
 	zi.GCD(xi, yi, ai, bi)
+	// math/big can leave the sign set on a cofactor that is zero (x for
+	// GCD(-6, 3)); a zero BigInt is never negative.
+	if xi != nil && xi.Sign() == 0 {
+		xi.Abs(xi)
+	}
+	if yi != nil && yi.Sign() == 0 {
+		yi.Abs(yi)
+	}
 	z.updateInner(zi)
 	if xi != nil {
 		x.updateInner(xi)
